@@ -43,7 +43,7 @@ META = {
 
 def _w(depth, split, xtype, attr, mods, same=False):
     return {"depth": depth, "fan": 1, "same": same, "wrap": 0, "nest": "lib", "split": split, "xtype": xtype, "xdims": 0,
-            "xpre": "", "ypre": "", "ieq": False, "attr": attr, "mods": mods, "clash": False, "shadow": False}
+            "xpre": "", "ypre": "", "ieq": False, "attr": attr, "mods": mods, "clash": False, "shadow": False, "skew": False}
 
 
 # programs on which the as-built configuration must violate an invariant: one per known deviation
@@ -126,7 +126,7 @@ def draw_pvs(rng, n):
                 for s in chosen]
         out.append({"depth": d, "fan": rng.choice([1, 2]), "same": rng.random() < 0.4, "wrap": rng.choice([0, 0, 1, 2]),
                     "nest": "lib", "split": split, "xtype": xt, "xdims": 0, "xpre": rng.choice(["", "", "parameter", "constant", "input"]),
-                    "ypre": "", "ieq": False, "attr": attr, "mods": mods, "clash": rng.random() < 0.2, "shadow": False})
+                    "ypre": "", "ieq": False, "attr": attr, "mods": mods, "clash": rng.random() < 0.2, "shadow": False, "skew": rng.random() < 0.25})
     return out
 
 
@@ -149,7 +149,7 @@ def run(ctx):
     need = ["spelling-mixed", "spelling-dotted", "spelling-nested", "depth1", "depth2", "xtype-aR", "xtype-aaR", "xpre-parameter",
             "attr-value", "attr-start", "attr-min", "attr-max", "attr-nominal", "attr-fixed", "attr-unit",
             "site-type0-lit", "site-decl1-lit", "site-decl1-ref", "site-ext1-lit", "site-ext1-ref", "site-comp2-lit",
-            "site-comp2-ref", "site-ext2-lit", "site-ext2-ref", "split1-chain2", "split2-chain2", "site-extb1-lit", "site-extb2-ref"]
+            "site-comp2-ref", "site-ext2-lit", "site-ext2-ref", "split1-chain2", "split2-chain2", "site-extb1-lit", "site-extb2-ref", "skew"]
     if thorough:
         need += ["depth3", "same", "site-comp3-ref", "site-ext3-lit"]
     missing = [t for t in need if not cover.get(t)]
